@@ -9,7 +9,8 @@ From Coq Require Import List Bool Arith NArith Lia Relations Permutation.
 Import ListNotations.
 From BB Require Import BN Brute SpaceFacts TrapFacts PercolateFacts AttractorFacts Diagram Invariants Checks Filter
   Strict PetriNet Control Meta FilterFacts PetriNetFacts TrappistFacts DiagramStruct DiagramSem1 DiagramCache
-  DiagramDepth DiagramComplete Termination ControlFacts MetaFacts Candidates StrictFacts MinExpandFacts CandidatesFacts SymbolicTest SymbolicTestFacts Signed ReductionFacts ControlFacts2 Main Blocks BlocksFacts ObsFacts OwnerFacts CandidatesTerm.
+  DiagramDepth DiagramComplete Termination ControlFacts MetaFacts Candidates StrictFacts MinExpandFacts CandidatesFacts SymbolicTest SymbolicTestFacts Signed ReductionFacts ControlFacts2 Main Blocks BlocksFacts ObsFacts OwnerFacts CandidatesTerm
+  PartialOwner BlockMath BlockComplete ASeeds ASeedsFacts LogChecks SkipRule SkipRuleFacts Names NamesFacts Perm PermFacts.
 
 Theorem C10_net_to_pn_faithful : forall (N : net) (impl : nat -> bool -> list space), impl_wf (nvars N) impl -> impl_cover N impl -> pn_faithful N (net_to_pn (nvars N) impl).
 Proof. exact net_to_pn_faithful. Qed.
@@ -47,6 +48,13 @@ Proof. exact fix_net_trap_space. Qed.
 Theorem C10_fix_net_percolate : forall (N : net) (v S : list (option bool)), length v = nvars N -> length S = nvars N -> (forall (i : nat) (b : bool), nth i v None = Some b -> is_source_b N i = true) -> subspace S v = true -> percolate_b (fix_net N v) S = percolate_b N S.
 Proof. exact fix_net_percolate. Qed.
 
+(* place names b0_/b1_ map back to (variable, value) *)
+Theorem C10_place_round_trip : forall (v : name) (b : bool), place_to_variable (place_name v b) = Some (v, b).
+Proof. exact place_round_trip. Qed.
+
+Theorem C10_place_name_inj : forall (v : name) (b : bool) (w : name) (c : bool), place_name v b = place_name w c -> v = w /\ b = c.
+Proof. exact place_name_inj. Qed.
+
 Print Assumptions C10_net_to_pn_faithful.
 Print Assumptions C10_pn_faithful_b_spec.
 Print Assumptions C10_pn_faithful_trans.
@@ -58,3 +66,5 @@ Print Assumptions C10_pn_sources_spec.
 Print Assumptions C10_reduce_pn_enabled.
 Print Assumptions C10_fix_net_trap_space.
 Print Assumptions C10_fix_net_percolate.
+Print Assumptions C10_place_round_trip.
+Print Assumptions C10_place_name_inj.
